@@ -315,7 +315,7 @@ def run_check(tier, base_seed, budget_s=None):
     nv = 0
     for n, item in enumerate(tot["violations"][:2]):
         sc, trace, v = minimise(item)
-        path = os.path.join(VERIF, "replays", f"C19_{tier}_{base_seed}_{n}.json")
+        path = os.path.join(os.environ.get("RELSIM_REPLAY_DIR", os.path.join(VERIF, "replays")), f"C19_{tier}_{base_seed}_{n}.json")
         os.makedirs(os.path.dirname(path), exist_ok=True)
         json.dump({"property": "C19", "signature": {"kind": v["kind"]}, "violation": v, "scenario": sc, "trace": trace},
                   open(path, "w"), indent=1)
@@ -355,8 +355,9 @@ def run_check(tier, base_seed, budget_s=None):
                         "interpreter warm-up); every line-level interleaving is reachable, the search samples them",
                         "uuid4 modelled as seeded 122-bit randomness"],
     }
-    os.makedirs(os.path.join(VERIF, "evidence"), exist_ok=True)
-    json.dump(ev, open(os.path.join(VERIF, "evidence", "C19.json"), "w"), indent=1)
+    if not os.environ.get("RELSIM_NOEVIDENCE"):
+        os.makedirs(os.path.join(VERIF, "evidence"), exist_ok=True)
+        json.dump(ev, open(os.path.join(VERIF, "evidence", "C19.json"), "w"), indent=1)
     if status == 0 and fail:
         print("HARNESS-ERROR", fail)
         return 2
